@@ -2255,8 +2255,11 @@ class FilePool:
         try:
             yield f
         finally:
-            self._out.remove(f)
+            # Back into the pool first: a writer that finds nothing out
+            # must find every handle in the pool (it empties the pool
+            # before the file is replaced).
             self._files.append(f)
+            self._out.remove(f)
             if not self._out:
                 with self._cond:
                     if self.writers and not self._out:
